@@ -81,6 +81,7 @@ func main() {
 		{Name: "gov-tally-bkava", Cfg: cfg, Script: history.ScenarioGovTallyBkava(cfg.GovVotingPeriod), Blocks: 20, MaxTxs: 5, PriceEvery: 6},
 		{Name: "committee-param-change", Cfg: cfg, Script: history.ScenarioCommitteeParamChange(), Blocks: 15, MaxTxs: 5, PriceEvery: 6},
 		{Name: "restart-basic-invalid-tx", Cfg: cfg, Script: history.ScenarioBasicInvalidAfterRestart()},
+		{Name: "restart-every-module", Cfg: cfg, Script: history.ScenarioEveryModuleAroundRestart()},
 	}
 	nRandom := c.Budget(3, 12)
 	blocks := 110
@@ -152,7 +153,7 @@ func runPlan(out *c.Out, plan history.Plan, k int) {
 	if len(h.Blocks) > 2 {
 		restartAt = 1 + int64(c.NewRng(plan.Seed^0xabcdef).Intn(len(h.Blocks)/2))
 	}
-	if plan.Name == "restart-basic-invalid-tx" {
+	if plan.Name == "restart-basic-invalid-tx" || plan.Name == "restart-every-module" {
 		restartAt = 2
 	}
 	wg.Add(1)
